@@ -53,12 +53,12 @@ def rules_for(prop):
         "C05": [named(grp.rule_fwd1, heads=("roll",)), grp.rule_roll, named(grp.rule_fw1, heads=("roll_count",)), scoped(st.rule_st2_3_4, ROLL), scoped(st.rule_st6, ROLL),
                 named(lv.rule_lv, only=("roll_mux._roll.subscribe", "roll_mux._roll_count.subscribe")), ms.ms_for_types("int", "uint", "mapper", maps=True), ms.rule_tp1, named(mx.rule_mx5, heads_only=("roll",)), *plumbing(*ROLL)],
         "C08": per_subscription("rxsci/operators/tee_map.py") + [tm.rule_tm123, tm.rule_tm4, tm.rule_tm5, st.rule_st5, mx.rule_mx7, ag.rule_ag1, lv.rule_lv, mx.rule_mx5, tm.rule_tm6],
-        "C09": scan.RULES + per_subscription("rxsci/operators/scan.py", "rxsci/operators/count.py", "rxsci/data/to_list.py", "rxsci/data/to_array.py") + [ms.ms_for_types("int", "float", "bool", "obj", maps=True), ms.rule_tp1, grp.rule_eq2, mx.rule_mx6, named(grp.rule_fw1, heads=("group_by",))],
+        "C09": scan.RULES + per_subscription("rxsci/operators/scan.py", "rxsci/operators/count.py", "rxsci/data/to_list.py", "rxsci/data/to_array.py") + [ms.ms_for_types("int", "float", "bool", "obj", maps=True), ms.rule_tp1, grp.rule_eq2, mx.rule_mx6, named(grp.rule_fw1, heads=("group_by",)), only_constructs(grp.rule_fl1, ("rxsci/state/memory_store.py",))],
         "C10": seq.RULES + per_subscription(*SEQ) + [only_constructs(ag.rule_ag1, SEQ), only_constructs(ag.rule_ag2, SEQ), scoped(ag.rule_ag8, SEQ), scan.rule_sc1, named(grp.rule_eq1, files=("rxsci/operators/distinct.py", "rxsci/operators/distinct_until_changed.py",
                                                        "rxsci/operators/first.py", "rxsci/operators/take.py", "rxsci/operators/last.py",
                                                        "rxsci/data/lag.py", "rxsci/data/pad.py", "rxsci/operators/start_with.py",
                                                        "rxsci/data/batch.py"), min_instances=1), ms.ms_for_types("int", "bool", "obj", maps=True), ms.rule_tp1, grp.rule_eq2],
-        "C11": [io.rule_framing, pr.rule_pr1, pr.rule_pr2, grp.rule_pr3, seq.rule_dp6, st.rule_st1, tm.rule_tm123, tm.rule_tm4, io.rule_fr3_prompt, io.rule_codec, seq.rule_opt1_time_split, grp.rule_dur1, seq.rule_fw2, tm.rule_tm6, only_constructs(ag.rule_ag1, ("rxsci/operators/flat_map.py",)), only_constructs(ag.rule_ag2, ("rxsci/operators/flat_map.py",)), ag.rule_ag8,
+        "C11": [io.rule_framing, pr.rule_pr1, pr.rule_pr2, grp.rule_pr3, seq.rule_dp6, st.rule_st1, tm.rule_tm123, tm.rule_tm4, io.rule_fr3_prompt, io.rule_codec, seq.rule_opt1_time_split, grp.rule_dur1, seq.rule_fw2, tm.rule_tm6, grp.rule_dp4, only_constructs(ag.rule_ag1, ("rxsci/operators/flat_map.py",)), only_constructs(ag.rule_ag2, ("rxsci/operators/flat_map.py",)), ag.rule_ag8,
                 *plumbing(*("rxsci/operators/scan.py", "rxsci/data/roll.py", "rxsci/data/split.py", "rxsci/data/time_split.py", "rxsci/operators/group_by.py",
                                        "rxsci/operators/tee_map.py", "rxsci/data/batch.py", "rxsci/operators/multiplex.py"), user_results=False)],
         "C12": [ms.ms_for_types("int", "float", "bool", "obj", maps=True), ms.rule_tp1, scan.rule_sd1, scan.rule_sc1, grp.rule_eq2, num.rule_nm1, ag.rule_ag4, named(scan.rule_pu1, files=("rxsci/math/sum.py", "rxsci/math/mean.py", "rxsci/math/min.py", "rxsci/math/max.py",
@@ -161,7 +161,7 @@ EXPLANATION = {
 _PLUMB = (" Also, on the modules of this property: SUB-3 every subscription an operator makes passes a handler for on_next, on_error and "
           "on_completed (or the whole observer) and subscribes its source at most once on a path; GEN-3 every function that builds an "
           "operator's observable returns a value on every path; CFG-1 a factory parameter the handlers test is not recomputed in the factory from "
-          "anything but itself (otherwise the run ends as ANALYSIS-ERROR: the per-configuration reading of the handlers would not describe them), and a user function is never wrapped in a cache; ARG-1 an operator factory does not mutate the objects it is given (a list of stages, of sources), directly or through a local alias; GEN-1 a one-shot iterator (generator expression, map / zip / iter, itertools objects) built by a factory is not consumed per subscription or per key, in the factory's own inner functions or in those of another factory it is handed to; CACHE-1 no function applied per item is memoised by == / hash; EQ-3 a parameter is not compared with True / False by == or `in` (0 == False). Parameters the pinned tree's functions did not have (rxsa/known_params.py) and that default to None / True / False are analysed at their default only.")
+          "anything but itself (otherwise the run ends as ANALYSIS-ERROR: the per-configuration reading of the handlers would not describe them), and a user function is never wrapped in a cache; ARG-1 an operator factory does not mutate the objects it is given (a list of stages, of sources), directly or through a local alias, nor replace a sequence argument by set / sorted / reversed / dict.fromkeys of it; GEN-1 a one-shot iterator (generator expression, map / zip / iter, itertools objects) built by a factory is not consumed per subscription or per key, in the factory's own inner functions or in those of another factory it is handed to; CACHE-1 no function applied per item is memoised by == / hash; EQ-3 a parameter is not compared with True / False by == or `in` (0 == False). Parameters the pinned tree's functions did not have (rxsa/known_params.py) and that default to None / True / False are analysed at their default only.")
 _EQ2 = " EQ-2 a marker object (STATE_NOTSET, STATE_CLEARED) is told apart by identity, never by == (which would run the __eq__ of the user value in the slot)."
 _ADDED = {
     "C01": " MX-9 an operator that tells mux events apart and sends them on builds a MuxObservable (a plain Observable of event tuples would send its successor down its plain arm); MS-6 the store layers forward state, key and value unchanged; TP-1 (state ids); FW-1 for group_by." + _EQ2 + _PLUMB,
@@ -173,7 +173,7 @@ _ADDED = {
     "C07": " DUR-1 durations are ordered as timedelta values (or total_seconds()), never through .seconds / .microseconds / .days alone; MX-5 the sandwich of time_split; FWD-1 the public time_split hands both timeouts, the time mapper, closing_mapper and include_closing_item unchanged to the implementation (no clamping or defaulting)." + _PLUMB,
     "C08": " TM-6 who may connect: connect() is called only by tee_map's join, the mux connectable proxy and train_test_split -- never by an operator on a source it was handed; MX-5 also: the shared outer subject of a grouping head is completed / errored exactly when its source is, on every path; TM-3 every application of tee_map publishes its own connectable from its source, also when the source is itself a connectable proxy." + _PLUMB,
     "C09": _EQ2 + " MX-6 the root multiplexer frames a failing source as an error, not as a completion; AG-3b a marker tested in the plain scan's accumulator variable is the value that variable starts with." + _PLUMB,
-    "C10": _EQ2 + _PLUMB,
+    "C10": _EQ2 + " FW-2 also: pad_start / pad_end refuse negative sizes only (0 is the identity); AG-8 the plain arms are the implementations confirmed on the pinned tree." + _PLUMB,
     "C11": " AG-1 / AG-2 on flat_map (the plain arm is the repository's synchronous twin, given the same arguments); OPT-1 / DUR-1 for time_split (a zero timeout is a timeout; durations compared as durations); TM-1..4 for tee_map: the join completes with its last branch, not with the source." + _PLUMB,
     "C12": _EQ2 + " The per-key-state obligations of the memory store for the declared types int / float / bool / obj (MS-5: float states are C doubles).",
     "C13": " MX-9 (see C01): the error handlers stay MuxObservables; ER-4 starmap is map(lambda i: mapper(*i)): one call of the user function, no handler of its own." + _PLUMB,
@@ -182,7 +182,7 @@ _ADDED = {
     "C16": " OB-1 also: compress / decompress handle the completion of their source themselves (flush; end-of-stream check), never hand it over as it comes." + _PLUMB,
     "C17": " CD-2 every str.encode / bytes.decode on the way of the data (codec, containers, framing, file io) uses the strict error scheme; OB-1 / FR-3 the transports the codec pipelines run over (compression stages, file.read) hand every byte on." + _PLUMB,
     "C18": " FH-1 also: file.write writes every item as it comes (where it keeps a write buffer, some path of on_completed writes it out whichever kind of target was given); SRC-1 the stages subscribe their source itself, not a pipeline over it that drops items; CD-2 (see C17) on csv.py and the stages of its pipelines; FR-3 also: the chunks are read from the object given as file, or from what was opened from it; CS-5 also: the reader decodes the whole file with one decoder (text-mode file or incremental decode stage, never chunk by chunk) using the encoding it was given; the writer creates / truncates the file." + _PLUMB,
-    "C19": " SRC-1 dump / load and the stages of their pipelines subscribe the source they were applied to, not a pipeline over it that drops items (distinct_until_changed, filter, take ...); FH-1 also: file.write opens the path through the open function the caller gave (the reader does); CD-2 (see C17) on json.py and the stages of its pipelines." + _PLUMB,
+    "C19": " AG-7 also: the JSON parser is handed the line as it came (no rewriting of the raw text before it is parsed); SRC-1 dump / load and the stages of their pipelines subscribe the source they were applied to, not a pipeline over it that drops items (distinct_until_changed, filter, take ...); FH-1 also: file.write opens the path through the open function the caller gave (the reader does); CD-2 (see C17) on json.py and the stages of its pipelines." + _PLUMB,
     "C20": " PU-2 also: the reader is opened on the caller's file object or on the file opened from the caller's path; the writer is opened on the given schema without an option that rewrites names or values (flavor, timestamp coercion); file modes 'wb' / 'rb'; the loader runs to completion for a path and for a file object." + _PLUMB,
 }
 for _k, _v in _ADDED.items():
